@@ -147,6 +147,7 @@ func (t *Transcoder) registerRules(rules []*annotations.HttpRule) error {
 		if selector == "" {
 			return errors.New("rule missing selector")
 		}
+		var isPrefix bool
 		if i := strings.Index(selector, "*"); i >= 0 {
 			if i != len(selector)-1 {
 				return fmt.Errorf("wildcard selector %q must be at the end", rule.GetSelector())
@@ -155,10 +156,11 @@ func (t *Transcoder) registerRules(rules []*annotations.HttpRule) error {
 			if len(selector) > 0 && !strings.HasSuffix(selector, ".") {
 				return fmt.Errorf("wildcard selector %q must be whole component", rule.GetSelector())
 			}
+			isPrefix = true
 		}
 		for _, methodConf := range t.methods {
 			methodName := string(methodConf.descriptor.FullName())
-			if !strings.HasPrefix(methodName, selector) {
+			if isPrefix && !strings.HasPrefix(methodName, selector) || !isPrefix && methodName != selector {
 				continue
 			}
 			methodRules[methodConf] = append(methodRules[methodConf], rule)
